@@ -297,6 +297,76 @@ func ruleDelimiterPerColumn(c *eng.Ctx) {
 			delimWrites = append(delimWrites, ci)
 		}
 	}
+	if len(delimWrites) == 0 {
+		// the line is assembled with strings.Join(fields, delimiter): exactly len(fields)-1 separators.
+		// Then fields must have one slot per grid column (made with the row's length) and slot c must be
+		// written from column c only (index = the induction variable of the loop over that row).
+		for _, ci := range eng.CallsNamed(fn, false, "strings.Join") {
+			args := ci.Common().Args
+			isDelim := false
+			for v := range eng.Slice(args[1], nil) {
+				if fr, ok := eng.AsField(v); ok && fr.Field == "Delimiter" {
+					isDelim = true
+				}
+			}
+			if !isDelim {
+				continue
+			}
+			key := "xlsx.(*Reader).TextWithOptions#delimiter"
+			mk, ok := args[0].(*ssa.MakeSlice)
+			if !ok {
+				c.Viol(R, key, ci.Pos(), "the joined fields are not a slice made with one slot per grid column")
+				return
+			}
+			lenOf := func(v ssa.Value) ssa.Value {
+				if call, ok := v.(*ssa.Call); ok && eng.CalleeName(call) == "builtin:len" {
+					return call.Call.Args[0]
+				}
+				return nil
+			}
+			row := lenOf(mk.Len)
+			bad := ""
+			if row == nil || (mk.Cap != mk.Len && lenOf(mk.Cap) == nil) {
+				bad = "the field slice is not sized by the row's length"
+			}
+			nSt := 0
+			for _, r := range *mk.Referrers() {
+				switch x := r.(type) {
+				case *ssa.IndexAddr:
+					ph, isInd := eng.Induction(x.Index)
+					okB := false
+					if isInd {
+						// the induction variable is bounded by the length of the same row
+						for _, cand := range []ssa.Value{ph, x.Index} {
+							for _, rr := range *cand.Referrers() {
+								if b, ok := rr.(*ssa.BinOp); ok && b.Op == token.LSS && b.X == cand {
+									if l := lenOf(b.Y); l != nil && row != nil && eng.SameValue(l, row) {
+										okB = true
+									}
+								}
+							}
+						}
+					}
+					if !okB {
+						bad = "a field is not stored at its own column index"
+					}
+					for _, rr := range *x.Referrers() {
+						if _, isSt := rr.(*ssa.Store); isSt {
+							nSt++
+						}
+					}
+				case *ssa.Call, *ssa.DebugRef:
+				default:
+					bad = "the field slice is re-sliced or appended to before joining"
+				}
+			}
+			if nSt == 0 && bad == "" {
+				bad = "no cell value is stored into the joined fields"
+			}
+			c.Check(bad == "", R, key, ci.Pos(), "one joined field per grid column", bad+": field c of a line is no longer column c")
+			return
+		}
+	}
 	if len(delimWrites) != 1 {
 		c.Viol(R, "xlsx.(*Reader).TextWithOptions#delimiter", fn.Pos(), fmt.Sprintf("expected exactly one delimiter write in the cell loop, found %d", len(delimWrites)))
 		return
